@@ -27,6 +27,7 @@ func init() {
 			Trusted:     commonTrusted,
 		},
 		Mutants: []Mutant{
+			{Name: "httpfs rejects names containing two dots without asking the file system (agent seed C19/4)", File: "loaders/httpfs/loader.go", Old: "func (l *httpFileSystemLoader) Exists(name string) bool {\n", New: "func (l *httpFileSystemLoader) Exists(name string) bool {\n\tif len(name) > 2 && name[1] == '.' && name[2] == '.' {\n\t\treturn false\n\t}\n", Rule: "C19.dir"},
 			{Name: "InMemLoader.Set overwrites the previous entry's buffer in place", File: "loader.go", Old: "\tl.files[templatePath] = []byte(contents)", New: "\tif old, ok := l.files[templatePath]; ok && len(old) >= len(contents) {\n\t\tl.files[templatePath] = old[:copy(old, contents)]\n\t\treturn\n\t}\n\tl.files[templatePath] = []byte(contents)", Rule: "C19.inmem"},
 			{Name: "Multi.Open gives up at the first loader that reports another error than not-exist (agent seed C19/2)", File: "loaders/multi/multi.go", Old: "\t\tif f, err := loader.Open(name); err == nil {\n\t\t\treturn f, nil\n\t\t}\n", New: "\t\tf, err := loader.Open(name)\n\t\tif err == nil {\n\t\t\treturn f, nil\n\t\t}\n\t\tif !os.IsNotExist(err) {\n\t\t\treturn nil, err\n\t\t}\n", Rule: "C19.multi"},
 			{Name: "normalize cleans before rooting, so ../x keeps its dots (agent seed C19/1)", File: "loader.go", Old: "\ttemplatePath = filepath.ToSlash(templatePath)\n\treturn path.Join(\"/\", templatePath)", New: "\ttemplatePath = path.Clean(filepath.ToSlash(templatePath))\n\tif !path.IsAbs(templatePath) {\n\t\ttemplatePath = \"/\" + templatePath\n\t}\n\treturn templatePath", Rule: "C19.inmem"},
@@ -145,6 +146,37 @@ func runC19(c *an.Ctx) {
 		}
 		if isFS {
 			dirRule(c, ex, tname)
+			// a file-system loader answers from the file system alone: every return of Exists and Open lies
+			// behind a backing-store access (no path is rejected or accepted on its spelling)
+			for _, m := range []struct {
+				f  *an.Fn
+				bs []backing
+			}{{ex, bex}, {op, bop}} {
+				at := map[token.Pos]bool{}
+				for _, b := range m.bs {
+					at[b.pos] = true
+				}
+				hooks := an.Hooks{Call: func(x *an.Explorer, call *ast.CallExpr, st *an.State) {
+					if at[call.Pos()] {
+						st.Set("asked", "1")
+					}
+				}}
+				x := p.NewExplorer(m.f, hooks)
+				x.Run(nil)
+				c.States += x.Visited
+				okAsk := len(x.Exits) > 0
+				var trail []string
+				for _, e := range x.Exits {
+					if e.Kind == an.ExitReturn && e.State.Get("asked") == "" {
+						okAsk, trail = false, e.Trail
+					}
+				}
+				if okAsk {
+					c.OK("C19.dir", m.f.Name+"/asks-the-file-system", m.f.Pos(), "every return lies behind an access to the file system with the given path")
+				} else {
+					c.Bad("C19.dir", m.f.Name+"/asks-the-file-system", m.f.Pos(), trail, "%s can answer without asking the file system: some paths are accepted or rejected by their spelling, so the loader no longer reports exactly the regular files below its root", m.f.Name)
+				}
+			}
 		}
 	}
 	inmemRules(c)
